@@ -19,24 +19,52 @@ tvars == <<sc, l, s>>
 Ev == Rec[l]
 Req(p, cond) == (p \in Props) => cond
 
-S0 == [phase |-> "start", dirty |-> {}, maps |-> 0]
+\* page protections as the three systems keep them (4 KiB pages of the arena; page 0/1 = the function's text, r-x):
+\*   wr    pages that are writable now
+\*   jitp  pages mapped MAP_JIT (macOS): writable iff this thread's JIT write protection is off
+\*   jit   1 = JIT write protection on (the state in which JIT pages can be executed)
+S0 == [phase |-> "start", dirty |-> {}, maps |-> 0, wr |-> {}, jitp |-> {}, jit |-> 1]
+PagesOf(o, n) == IF n <= 0 THEN {} ELSE (o \div 4096)..((o + n - 1) \div 4096)
+Writable(pg) == pg \in s.wr \/ (pg \in s.jitp /\ s.jit = 0)
+HasW(prot) == (prot \div 2) % 2 = 1
 TraceInit == sc \in 1..NScen /\ l = First(sc) /\ s = S0
 Step(name) == l <= Last(sc) /\ Ev.ev = name /\ l' = l + 1 /\ sc' = sc
 Range(o, n) == o..(o + n - 1)
 
 PBegin  == Step("PBegin") /\ s.phase = "start" /\ s' = [s EXCEPT !.phase = "run"]
-PWrite  == Step("PWrite") /\ s' = [s EXCEPT !.dirty = @ \cup Range(Ev.off, Ev.len)]
+\* C01 ("... fails loudly instead"): bytes change only in pages the system lets this thread write at that moment -- on the
+\* real system anything else is a fault inside the installation or the restore, not a panic
+PWrite  ==
+  /\ Step("PWrite")
+  /\ Req("C01", \A pg \in PagesOf(Ev.off, Ev.len) : Writable(pg))
+  /\ s' = [s EXCEPT !.dirty = @ \cup Range(Ev.off, Ev.len)]
 PFlush  == Step("PFlush") /\ s' = [s EXCEPT !.dirty = IF Ev.in_arena THEN @ \ Range(Ev.off, Ev.len) ELSE @]
 PBarrier == Step("PBarrier") /\ s' = s
 POs ==
   /\ Step("POs")
   /\ Req("C12", Ev.call \in {"munmap", "VirtualFree"} => Ev.x.owned)       \* only what was obtained is given back
-  /\ s' = [s EXCEPT !.maps = IF Ev.call \in {"mmap", "VirtualAlloc"} THEN @ + 1
-                             ELSE IF Ev.call \in {"munmap", "VirtualFree"} THEN @ - 1 ELSE @]
+  /\ LET pgs == IF ~Ev.in_arena THEN {} ELSE IF Ev.call = "VirtualFree" THEN PagesOf(Ev.off, 1) ELSE PagesOf(Ev.off, Ev.len)
+         \* mprotect: whole pages from a page-aligned address (EINVAL otherwise: nothing changes);
+         \* VirtualProtect and mach_vm_protect: every page holding a byte of [addr, addr + size)
+         newwr == CASE Ev.call = "mmap" /\ (Ev.x.flags \div 2048) % 2 = 0 -> IF HasW(Ev.x.prot) THEN s.wr \cup pgs ELSE s.wr \ pgs
+                    [] Ev.call = "VirtualAlloc" -> IF Ev.x.prot \in {4, 64} THEN s.wr \cup pgs ELSE s.wr \ pgs
+                    [] Ev.call \in {"munmap", "VirtualFree"} -> s.wr \ pgs
+                    [] Ev.call = "mprotect" -> IF ~Ev.x.ok THEN s.wr ELSE IF HasW(Ev.x.prot) THEN s.wr \cup pgs ELSE s.wr \ pgs
+                    [] Ev.call = "VirtualProtect" -> IF Ev.x.prot \in {4, 64} THEN s.wr \cup pgs ELSE s.wr \ pgs
+                    [] Ev.call = "mach_vm_protect" -> IF HasW(Ev.x.prot) THEN s.wr \cup pgs ELSE s.wr \ pgs
+                    [] OTHER -> s.wr
+         newjitp == CASE Ev.call = "mmap" /\ (Ev.x.flags \div 2048) % 2 = 1 -> s.jitp \cup pgs
+                      [] Ev.call = "munmap" -> s.jitp \ pgs
+                      [] OTHER -> s.jitp
+     IN s' = [s EXCEPT !.maps = IF Ev.call \in {"mmap", "VirtualAlloc"} THEN @ + 1
+                                 ELSE IF Ev.call \in {"munmap", "VirtualFree"} THEN @ - 1 ELSE @,
+                       !.wr = newwr, !.jitp = newjitp,
+                       !.jit = IF Ev.call = "jit_write_protect" THEN Ev.x.enabled ELSE @]
 \* C17: "... after the last write to that range and before control returns to the user"
 PReturn ==
   /\ Step("PReturn")
   /\ Req("C17", s.dirty = {})
+  /\ Req("C01", s.jit = 1)          \* macOS: back in the state in which this thread can execute its trampolines
   /\ s' = s
 PEnd ==
   /\ Step("PEnd")
